@@ -455,6 +455,67 @@ C16Modify(pre, e, post, increase) ==
                  LET v == LiqEvent(e, "LiquidityDecreased") IN
                    v.amountA \doteq td[1] /\ v.amountB \doteq td[2] /\ v.feeA \doteq TfFee(cA, td[1]) /\ v.feeB \doteq TfFee(cB, td[2]))
 
+(* increase_liquidity_by_token_amounts_v2 (C08 last clause + C16): the liquidity added is the largest whose
+   cost fits both (transfer-fee-reduced) maxima; the vault receives exactly that cost; the user pays the
+   smallest fee-included amounts, within the maxima; the pool price is inside the caller's bounds.   *)
+ByAmounts(pre, e, post) ==
+  LET k    == APos(e)
+      x    == pre.pos[k]
+      p    == x.pool
+      pool == pre.pool[p]
+      L    == post.pos[k].liq -- x.liq
+      td   == TokenDeltas(pool.tick, pool.sqrtPrice, x.lo, x.up, P(post, x.lo), P(post, x.up), L, TRUE)
+      td2  == TokenDeltas(pool.tick, pool.sqrtPrice, x.lo, x.up, P(post, x.lo), P(post, x.up), L ++ 1, TRUE)
+      cA   == TfCfg(pre, pool.mintA, e.epoch)
+      cB   == TfCfg(pre, pool.mintB, e.epoch)
+      netA == TfExcluded(cA, e.args.maxA)
+      netB == TfExcluded(cB, e.args.maxB)
+      paidA == 0 -- Delta(pre, post, e.slots.token_owner_account_a.id)
+      paidB == 0 -- Delta(pre, post, e.slots.token_owner_account_b.id)
+  IN /\ Sub("liquidity_positive", 0 \prec L)
+     /\ Sub("price_within_bounds", e.args.minSp \preceq pool.sqrtPrice /\ pool.sqrtPrice \preceq e.args.maxSp)
+     /\ Sub("vault_receives_exact", Delta(pre, post, e.slots.token_vault_a.id) \doteq td[1] /\ Delta(pre, post, e.slots.token_vault_b.id) \doteq td[2])
+     /\ Sub("cost_fits_maxima", td[1] \preceq netA /\ td[2] \preceq netB)
+     /\ Sub("largest_liquidity", netA \prec td2[1] \/ netB \prec td2[2])
+     /\ Sub("request_is_smallest", TfInclOK(cA, td[1], [amount |-> paidA, fee |-> TfFee(cA, paidA)])
+                                 /\ TfInclOK(cB, td[2], [amount |-> paidB, fee |-> TfFee(cB, paidB)]))
+     /\ Sub("max_on_paid", paidA \preceq e.args.maxA /\ paidB \preceq e.args.maxB)
+     /\ Sub("event", HasLiqEvent(e, "LiquidityIncreased") /\
+            LET v == LiqEvent(e, "LiquidityIncreased") IN
+              v.liq \doteq L /\ v.amountA \doteq paidA /\ v.amountB \doteq paidB /\ v.feeA \doteq TfFee(cA, paidA) /\ v.feeB \doteq TfFee(cB, paidB))
+
+(* reposition_liquidity_v2 (C08 + C16): everything is withdrawn from the old range (rounded down), the new
+   liquidity deposited into the new range (rounded up), and only the difference moves: the vault pays /
+   receives exactly the difference, the user receives it less the transfer fee or pays the smallest
+   fee-included amount; minima apply to the old range's amounts net of fee, maxima to the new range's
+   amounts plus the fee paid.                                                                     *)
+RepoToken(pre, e, post, c, old, new, ua, va, minT, maxT) ==
+  LET dv == Delta(pre, post, va) du == Delta(pre, post, ua) IN
+  /\ dv \doteq (new -- old)
+  /\ IF new \prec old
+     THEN du \doteq TfExcluded(c, old -- new) /\ new \preceq maxT
+     ELSE LET paid == 0 -- du IN
+          TfInclOK(c, new -- old, [amount |-> paid, fee |-> TfFee(c, paid)]) /\ (new ++ TfFee(c, paid)) \preceq maxT
+  /\ minT \preceq TfExcluded(c, old)
+Reposition(pre, e, post) ==
+  LET k    == APos(e)
+      x    == pre.pos[k]
+      p    == x.pool
+      pool == pre.pool[p]
+      a    == e.args
+      old  == IF x.liq \doteq 0 THEN <<0, 0>> ELSE TokenDeltas(pool.tick, pool.sqrtPrice, x.lo, x.up, P(pre, x.lo), P(pre, x.up), x.liq, FALSE)
+      new  == TokenDeltas(pool.tick, pool.sqrtPrice, a.newLo, a.newUp, P(post, a.newLo), P(post, a.newUp), a.newLiq, TRUE)
+      cA   == TfCfg(pre, pool.mintA, e.epoch)
+      cB   == TfCfg(pre, pool.mintB, e.epoch)
+  IN /\ Sub("token_a", RepoToken(pre, e, post, cA, old[1], new[1], e.slots.token_owner_account_a.id, e.slots.token_vault_a.id, a.minA, a.maxA))
+     /\ Sub("token_b", RepoToken(pre, e, post, cB, old[2], new[2], e.slots.token_owner_account_b.id, e.slots.token_vault_b.id, a.minB, a.maxB))
+     /\ Sub("position", post.pos[k].liq \doteq a.newLiq /\ post.pos[k].lo = a.newLo /\ post.pos[k].up = a.newUp)
+     /\ Sub("price_untouched", post.pool[p].sqrtPrice \doteq pool.sqrtPrice /\ post.pool[p].tick = pool.tick)
+     /\ Sub("event", HasLiqEvent(e, "LiquidityRepositioned") /\
+            LET v == LiqEvent(e, "LiquidityRepositioned") IN
+              v.oldA \doteq old[1] /\ v.oldB \doteq old[2] /\ v.newA \doteq new[1] /\ v.newB \doteq new[2]
+              /\ v.oldLiq \doteq x.liq /\ v.newLiq \doteq a.newLiq)
+
 -----------------------------------------------------------------------------
 (* C14: adaptive fees.  o = oracle record of the pool (constants + variables), g = tick group. *)
 HardLimit == 100000
@@ -796,6 +857,10 @@ IxOK(pre, e, post) ==
   /\ IF e.name = "swap_v2" THEN Chk("C16", "swap_v2", C16Swap(pre, e, post)) ELSE TRUE
   /\ IF e.name = "increase_liquidity_v2" THEN Chk("C16", "increase_v2", C16Modify(pre, e, post, TRUE)) ELSE TRUE
   /\ IF e.name = "decrease_liquidity_v2" THEN Chk("C16", "decrease_v2", C16Modify(pre, e, post, FALSE)) ELSE TRUE
+  /\ IF e.name = "increase_liquidity_by_token_amounts_v2"
+     THEN Chk("C08", "by_token_amounts", ByAmounts(pre, e, post)) /\ Chk("C16", "by_token_amounts_v2", ByAmounts(pre, e, post)) ELSE TRUE
+  /\ IF e.name = "reposition_liquidity_v2"
+     THEN Chk("C08", "reposition_amounts", Reposition(pre, e, post)) /\ Chk("C16", "reposition_v2", Reposition(pre, e, post)) ELSE TRUE
   /\ IF e.name \in {"increase_liquidity", "increase_liquidity_v2"}
      THEN Chk("C08", "increase_amounts", NoTransferFee(pre, pre.pos[APos(e)].pool) => C08Modify(pre, e, post, TRUE))
      ELSE TRUE
